@@ -178,3 +178,15 @@ MANIFEST_TEXT['C19'] = {'text': 'Lean theorems over all config shapes, flag toke
 
 # internal: base honest-world run of the verification group (not a property check; used to validate the world generator)
 PROPS["V"] = {"project": strip_cls, "rule": "honest worlds at the four option settings", "no_escalation": True}
+
+MANIFEST_TEXT["C09"] = {'text': 'Lean theorems over all byte strings / all messages: serialize_parse (accepted input is reproduced byte for byte), signed_message_is_prefix '
+         '(re-serialised header||body = bytes 0-631), parse_serialize (every WellFormed message survives serialise-then-parse unchanged), '
+         'size_inconsistent_rejected / roundtrip_iff_sizeConsistent (inconsistent nested sizes are rejected, never mis-parsed), parse_ok_iff_layout / '
+         'parse_err_iff_not_layout (accepted inputs = the declarative V4Layout), fields_are_slices / parse_ok_iff (every field is the absolute little-endian '
+         'slice), parse_eq_spec (agreement with the independent table-driven cursor parser specParse of TdxModel/AbiSpec.lean), layout_contiguous (regenerated '
+         "offset table tiles the records in Intel's order), F1 witnesses; Go-faithful parser/serialiser model with the regenerated offsets, compared with "
+         'abi.QuoteToProto / QuoteToAbiBytes on every truncation, size-field boundary pairs, mutants and structural message mutations, with an independent '
+         'cursor-based layout oracle.',
+ 'note': 'Trusted: Lean kernel, extractor, harness. Inputs assumed < 2^32 bytes (uint32 truncation not modelled). Serialisers modelled as '
+         'check-then-concatenate (justified by layout_contiguous + behavioural comparison). protobuf decoding itself is not modelled.',
+ 'technique': 'Lean 4 proof over a Go-faithful executable model + differential correspondence'}
